@@ -247,8 +247,9 @@ def rle_to_dense(rle_data, dtype=np.int64):
         result = np.repeat(np.squeeze(values, axis=-1), np.squeeze(counts, axis=-1))
     except TypeError:
         # on windows it sometimes fails to cast data type
+        # it is the counts that can not be cast (uint64): the values keep `dtype`
         result = np.repeat(
-            np.squeeze(values.astype(np.int64), axis=-1),
+            np.squeeze(values, axis=-1),
             np.squeeze(counts.astype(np.int64), axis=-1),
         )
     return result
@@ -428,7 +429,7 @@ def rle_mask(rle_data, mask):
             count = next(data_iter)
         except StopIteration:
             break
-        for _ in range(count):
+        for _ in range(int(count)):
             m = next(mask_iter)
             if m:
                 yield value
@@ -456,7 +457,7 @@ def brle_mask(rle_data, mask):
             count = next(data_iter)
         except StopIteration:
             break
-        for _ in range(count):
+        for _ in range(int(count)):
             m = next(mask_iter)
             if m:
                 yield value
@@ -604,7 +605,9 @@ def brle_gather_1d(brle_data, indices):
 def brle_reverse(brle_data):
     """Equivalent to dense_to_brle(brle_to_dense(brle_data)[-1::-1])."""
     if len(brle_data) % 2 == 0:
-        brle_data = np.concatenate([brle_data, [0]], axis=0)
+        # a python int next to uint64 counts would turn them into floats
+        brle_data = np.asarray(brle_data)
+        brle_data = np.concatenate([brle_data, np.zeros(1, brle_data.dtype)], axis=0)
     return brle_data[::-1]
 
 
@@ -724,5 +727,6 @@ def brle_strip(brle_data):
             end += int(count)
 
     brle_data = brle_data[final_i : None if final_j == 0 else -final_j]
-    brle_data = np.concatenate([[0], brle_data])
+    brle_data = np.asarray(brle_data)
+    brle_data = np.concatenate([np.zeros(1, brle_data.dtype), brle_data])
     return brle_data, (start, end)
